@@ -339,8 +339,17 @@ func (r *RegionScatterer) selectCandidates(region *core.RegionInfo, sourceStoreI
 		log.Error("failed to get the store", zap.Uint64("store-id", sourceStoreID), errs.ZapError(errs.ErrGetSourceStore))
 		return nil
 	}
+	// A store that holds another peer of the region is not a candidate: that peer is placed on its
+	// own turn, and two peers must never end up on the same store.
+	otherStores := make(map[uint64]struct{}, len(region.GetPeers()))
+	for _, peer := range region.GetPeers() {
+		if peer.GetStoreId() != sourceStoreID {
+			otherStores[peer.GetStoreId()] = struct{}{}
+		}
+	}
 	filters := []filter.Filter{
 		filter.NewExcludedFilter(r.name, nil, selectedStores),
+		filter.NewExcludedFilter(r.name, nil, otherStores),
 	}
 	scoreGuard := filter.NewPlacementSafeguard(r.name, r.cluster, region, sourceStore)
 	filters = append(filters, context.filters...)
